@@ -6,6 +6,7 @@ VERUS_UNITS = {
     "vfw": {"name": "vfw", "template": "contracts/verus/fw.tmpl", "defines": ["VAL"]},
     "vleaf": {"name": "vleaf", "template": "contracts/verus/fw.tmpl", "defines": ["LEAF"]},
     "vsem": {"name": "vsem", "template": "contracts/verus/sem.tmpl", "defines": ["SEM"]},
+    "vsim": {"name": "vsim", "template": "contracts/verus/sim.tmpl", "defines": []},
 }
 
 FW = "crates/maybenot/src/framework.rs"
@@ -16,6 +17,8 @@ CO = "crates/maybenot/src/counter.rs"
 MA = "crates/maybenot/src/machine.rs"
 FFI = "crates/maybenot-ffi/src/lib.rs"
 FFI2 = "crates/maybenot-ffi/src/ffi.rs"
+SIM = "crates/maybenot-simulator/src/lib.rs"
+SIMQ = "crates/maybenot-simulator/src/lib.rs"   # the harnesses of the queue_peek functions live in lib.rs
 
 
 def H(crate, mod, name, fn, file, tier="quick", bounded=None, variants=None, cex=None, default_tag="C01.safety_leaf"):
@@ -75,6 +78,23 @@ KANI_HARNESSES = {
     "k_ffi_null_args": H("maybenot-ffi", "ffi::verif_proofs", "k_ffi_null_args",
                          "maybenot_on_events / maybenot_num_machines / maybenot_start (null arguments)", FFI2,
                          default_tag="C20.safety"),
+    "k_sim_block_fires": H("maybenot-simulator", "verif_proofs", "k_sim_block_fires", "do_scheduled_action (BlockOutgoing)", SIM,
+                           bounded="two timer slots per side, frameworks without machines; delays and durations < 2^32 us",
+                           default_tag="C16.safety"),
+    "k_sim_padding_fires": H("maybenot-simulator", "verif_proofs", "k_sim_padding_fires", "do_scheduled_action (SendPadding)", SIM,
+                             bounded="two timer slots per side, frameworks without machines", default_tag="C17.safety"),
+    "k_sim_timer_ends": H("maybenot-simulator", "verif_proofs", "k_sim_timer_ends", "do_internal_timer", SIM,
+                          bounded="two timer slots per side, frameworks without machines", default_tag="C18.safety"),
+    "k_sim_peek_blocked": H("maybenot-simulator", "verif_proofs", "k_sim_peek_blocked", "queue_peek::peek_blocked_exp", SIMQ,
+                            bounded="whole-second offsets below 2^32", default_tag="C16.safety"),
+    "k_sim_peek_action_2": H("maybenot-simulator", "verif_proofs", "k_sim_peek_action_2", "queue_peek::peek_scheduled_action", SIMQ,
+                             bounded="one slot per side, whole-second offsets below 2^32", default_tag="C17.safety"),
+    "k_sim_peek_timer_2": H("maybenot-simulator", "verif_proofs", "k_sim_peek_timer_2", "queue_peek::peek_scheduled_internal_timer", SIMQ,
+                            bounded="one slot per side, whole-second offsets below 2^32", default_tag="C18.safety"),
+    "k_sim_peek_action": H("maybenot-simulator", "verif_proofs", "k_sim_peek_action", "queue_peek::peek_scheduled_action", SIMQ, tier="thorough",
+                           bounded="two client slots and one server slot, whole-second offsets below 2^32", default_tag="C17.safety"),
+    "k_sim_peek_timer": H("maybenot-simulator", "verif_proofs", "k_sim_peek_timer", "queue_peek::peek_scheduled_internal_timer", SIMQ, tier="thorough",
+                          bounded="two client slots and one server slot, whole-second offsets below 2^32", default_tag="C18.safety"),
     "k_ffi_on_events_empty": H("maybenot-ffi", "verif_proofs", "k_ffi_on_events_empty", "maybenot_on_events (ffi.rs)", FFI,
                                bounded="an instance without machines (generator never used, all-zero value), two consecutive batches of 0 or 1 event, Instant::now stubbed",
                                default_tag="C20.safety"),
@@ -134,6 +154,12 @@ PROPS = {
     "C13": {"verus": ["vfw"], "kani": ["k_dist_sample", "k_clamp_timeout", "k_clamp_duration", "k_clamp_limit",
                                   "k_counter_value"] + VALID_DIST, "title": "Sampling in range",
             "explanation": "V-FW, on the real bodies of Dist::validate and Dist::dist_sample with rand_distr replaced by stand-ins whose constructors are functions of their arguments: an accepted distribution satisfies dist_valid [C13.valid], and under dist_valid every constructor unwrap in dist_sample succeeds and rand's gen_range precondition (low < high, finite width) holds - for all 11 families, argument order included [C13.nopanic] (floats as uninterpreted IEEE predicates with the comparison axioms listed in the trusted base); and only validated distributions are ever sampled: Framework::new's check of every machine is carried by the framework invariant (opaque fact cfg_valid about the never-changing machine list) to each of the four sampling calls in transition / update_counter / schedule_action, whose leaf contracts require action_valid / counter_valid [C13.validated]. Kani: Dist::sample with the underlying rand_distr sampler over-approximated by 'returns any f64': the result is not NaN, >= 0, <= max when max > 0, and finite, for all 11 families and all start/max including NaN and infinities; the consumers' conversions never panic and clamp to one day. NOT decided: that the rand_distr samplers return promptly (probabilistic termination) - an explicit assumption."},
+    "C16": {"verus": [], "kani": ["k_sim_block_fires", "k_sim_peek_blocked"], "title": "Simulator blocking (per-action rules)",
+            "explanation": "PARTIAL, function level, BOUNDED (two timer slots per side). K-SIM runs the real do_scheduled_action on real SimState pairs with std::time arithmetic bit-precise: a BlockOutgoing action that fires is reported as BlockingBegin for its machine and side at the fire time (plus the integration's delays, stubbed as arbitrary) [C16.begin]; the side's blocking then lasts until fire time + duration if the action says replace or that is later than the running expiry, otherwise the running expiry stays [C16.expiry]; the blocking's bypass property becomes the action's flag exactly when this action set the expiry, and the event carries it [C16.bypass]; the other side is untouched [C16.side]; peek_blocked_exp returns the earlier of the two sides' expiries with its side [C16.due]. NOT decided: the single BlockingEnd at the expiry (pick_next), and that nothing leaves a blocked side unless bypass allows (peek_queue / the event queues) - whole-run behaviour of the event loop."},
+    "C17": {"verus": ["vsim"], "kani": ["k_sim_padding_fires", "k_sim_block_fires", "k_sim_peek_action_2", "k_sim_peek_action"], "title": "Simulator action timers (per-function rules)",
+            "explanation": "PARTIAL, function level. V-SIM verifies the real body of trigger_update (any number of machines; std::time, the event queue and the framework replaced by stand-ins, the framework's returned actions being any sequence naming distinct existing machines, which is what V-FW proves [C04.slot]): a returned SendPadding / BlockOutgoing action becomes that machine's pending action, due at the current time + its timeout (+ the integration's trigger delay), replacing whatever was pending [C17.schedule][C17.supersede]; Cancel of the action timer (or of all) clears it, Cancel of the internal timer and UpdateTimer leave it [C17.cancel]; machines without a returned action keep theirs [C17.frame]. K-SIM (real code, bit-precise, BOUNDED to two slots per side): a due SendPadding action is executed as PaddingSent for its machine and side exactly at its scheduled time with its flags, and removed - it happens once - while other pending actions stay [C17.fire][C17.once]; peek_scheduled_action returns the time to the earliest pending action not in the past [C17.due]. NOT decided: that pick_next always advances to that earliest time first (whole-run behaviour of the event loop)."},
+    "C18": {"verus": ["vsim"], "kani": ["k_sim_timer_ends", "k_sim_peek_timer_2", "k_sim_peek_timer"], "title": "Simulator internal timers (per-function rules)",
+            "explanation": "PARTIAL, function level. V-SIM verifies the real body of trigger_update (any number of machines, stand-ins as for C17): an UpdateTimer action sets the machine's internal timer to the current time + duration exactly when it says replace, or no timer is running and the new expiry is later than now, or the new expiry is later than the running one; otherwise the timer stays [C18.rule]; Cancel of the internal timer (or of all) clears it [C18.cancel]; TimerBegin is pushed exactly for the UpdateTimer actions that set or changed the timer, at that same instant, for that machine and side, in order [C18.begin]; other machines' timers are untouched [C18.frame]. K-SIM (real code, bit-precise, BOUNDED to two slots per side): the expiring timer is reported as TimerEnd for its machine and side exactly at its expiry and removed, other timers stay [C18.end][C18.once]; peek_scheduled_internal_timer returns the time to the earliest timer not in the past [C18.due]. NOT decided: that pick_next reaches every expiry (whole-run behaviour of the event loop)."},
     "C20": {"verus": [], "kani": ["k_ffi_convert_action", "k_ffi_convert_event", "k_ffi_null_args", "k_ffi_on_events_empty"], "title": "C API",
             "explanation": "convert_action is field-exact for every TriggerAction value (kind, machine, flags, timer, seconds, nanoseconds) and convert_event for all 10 event types and any id (loop-free, full domain); null `this`, null `out` are reported through NullPointer / 0 without dereference; on a real machine-less instance (BOUNDED: 0 machines, batches of 0 or 1 event) maybenot_on_events reports a null event / action / count pointer, returns Ok otherwise and writes the count 0 <= maybenot_num_machines. The zip with the output slice for instances with machines and start/stop ownership are std semantics, assumed."},
 }
